@@ -90,7 +90,7 @@ func (P) Monitor(c *hx.CaseRun) []hx.Failure {
 }
 
 func (P) Generate(g *hx.Gen) {
-	n := g.Pick(40, 1000)
+	n := g.Pick(200, 1000)
 	for k := 0; k < n; k++ {
 		trie := g.Rng.Intn(2)
 		ops := []string{hx.CaseOp(), fmt.Sprintf("chain trie=%d accts=3 wallets=2 seed=%d", trie, 1+g.Rng.Intn(1000))}
